@@ -144,6 +144,7 @@ fn features(v: &J, f: &mut BTreeSet<String>) {
             }
           }
           ("increment", x) if !x.is_null() => { f.insert("range-inc".into()); }
+          ("InlineCode", J::String(t)) => { if t.contains('\\') || t.contains('`') { f.insert("inline-code-special".into()); } }
           ("subtitle", x) if !x.is_null() => { f.insert("section-subtitle".into()); }
           ("Map", J::Object(mo)) => { if let Some(J::Array(e)) = mo.get("elements") { if e.is_empty() { f.insert("empty-map".into()); } } }
           ("Record", J::Array(_)) => { f.insert("kind-record".into()); }
